@@ -705,7 +705,20 @@ class Engine(Conc, Executor, Calls):
         return None
 
     def on_atomic(self, fr, st, p, ins, what):
-        pass
+        """lost-update check on cells handled with sync/atomic: a Store that follows a Load of the same cell in one activation is a
+        read-modify-write that is not atomic (another goroutine's update in between is overwritten); CompareAndSwap / Add are"""
+        if self.cur is None or self.quiet or not isinstance(p, PtrV):
+            return
+        key = ("atomic_loaded", str(p.cell), tuple(p.path))
+        if what == "load":
+            st.ghost[key] = True
+        elif what == "store":
+            o = self.obl("ownership", "atomic-rmw", self.own_props())
+            o.instances += 1
+            if st.ghost.get(key):
+                o.failed.append({"pos": ins.get("pos"), "reason": "atomic Store to a cell this activation loaded before: the read-modify-write is not atomic, a concurrent update between the Load and the Store is lost (use CompareAndSwap or Add)"})
+            else:
+                o.proved += 1
 
     def on_block(self, fr, st, ins, chans, blocking):
         """blocking points of a function declared `cancellable <ctx>`: one case must wait on ctx.Done()"""
